@@ -1298,6 +1298,17 @@ def m2_particles(ctx: Any, prog: Program) -> None:
                     v_ = None
                 if isinstance(v_, (list, tuple)) and all(isinstance(x, str) for x in v_):
                     sections_w = list(v_)
+    if not sections_w:
+        # a loop over a module-level table of names is unrolled when the module is loaded (engine.model.unroll_table_loops): the sections are
+        # then the constant names of consecutive `getattr(<part>, '<name>')` calls
+        ga = sorted([c for c in ast.walk(exp) if isinstance(c, ast.Call) and dotted(c.func) == 'getattr' and len(c.args) == 2 and isinstance(c.args[1], ast.Constant) and isinstance(c.args[1].value, str)],
+                    key=lambda c: (c.lineno, c.col_offset))
+        seen_: List[str] = []
+        for c in ga:
+            if c.args[1].value not in seen_:
+                seen_.append(c.args[1].value)
+        if len(seen_) >= 4:
+            sections_w = seen_
     ctx.shape('C20.M2', bool(sections_w), mod, exp, 'the operator sections export() walks are a literal list (in place or in a module constant)', func='Particle.export', text='particle sections found')
     ctx.check('C20.M2', (sections_r == sections_w and len(sections_r) == 6) or not sections_w, mod, exp, f'operator sections: parse reads {sections_r}, export writes {sections_w}', func='Particle.export', text='particle sections')
     def _keys_used(fn: ast.AST, store: bool) -> Set[str]:
